@@ -7,8 +7,9 @@
    the write that produced it.  Bytes, CRCs and the header layout belong to C10.
 
    Nondeterminism is explicit:
-     - [sched]  : the order in which the actor dequeues Write messages and the points at
-                  which it runs flush_group_commit (which writes share a batch);
+     - [sched]  : the order in which the actor dequeues Write, TruncateUpTo and Shutdown
+                  messages and the points at which it runs flush_group_commit (which
+                  writes share a batch);
      - [io]     : the outcome of every I/O call the actor makes, in program order
                   (ok / error with no, partial or full effect);
      - a crash  : the outcome stream ends.  The call that finds the stream empty is never
@@ -107,16 +108,19 @@ Inductive call :=
 | CSync (s : N)
 | CCreate (s : N)
 | CHdr (s : N)
-| CEnt (s : N) (w : N).
+| CEnt (s : N) (w : N)
+| CDel (s : N).               (* WalStore::delete *)
 
 Inductive log_item :=
 | LIo (c : call) (o : outcome)
 | LAck (w : N) (ok : bool)
+| LTrunc (t : N)              (* the actor starts handle_truncation(t) *)
 | LDown.                      (* the response to a Shutdown message has been sent *)
 
 Inductive sched_item :=
 | SWrite (w : N) (size : N)   (* the actor dequeues Write w; [size] = encoded entry size *)
 | SFlush                      (* the actor runs flush_group_commit (end of a batch) *)
+| STruncate (t : N)           (* the actor dequeues TruncateUpTo { streamed_up_to_timestamp: t } *)
 | SShutdown.                  (* the actor dequeues Shutdown: final flush_group_commit (the
                                  pending acks get the RESULT of that fsync), then the
                                  response.  Whether the loop then ends (Shutdown taken by
@@ -152,29 +156,30 @@ Record state := State {
   s_io : list outcome;            (* outcomes not yet consumed *)
   s_halt : bool;                  (* crashed *)
   s_over : bool;                  (* a Write was handled with entries_since_sync >= max *)
-  s_panic : bool                  (* the actor task panicked (an expect() failed) *)
+  s_panic : bool;                 (* the actor task panicked (an expect() failed) *)
+  s_released : list N             (* entries of files deleted by TruncateUpTo (history variable) *)
 }.
 
 (* WalRotator::new: current_sequence = the largest sequence number among the existing
-   files (0 if none), no current writer.  [acked0]/[err0] carry the acks of earlier
-   incarnations (history variables). *)
+   files (0 if none), no current writer.  [acked0]/[err0]/[released0] carry the acks and the
+   truncated entries of earlier incarnations (history variables). *)
 Definition max_seq (st : store) : N := fold_right (fun p m => N.max (fst p) m) 0 st.
-Definition init_from (st0 : store) (acked0 err0 : list N) (io : list outcome) : state :=
-  State st0 None (max_seq st0) false [] 0 acked0 err0 [] io false false false.
-Definition init (io : list outcome) : state := init_from [] [] [] io.
+Definition init_from (st0 : store) (acked0 err0 released0 : list N) (io : list outcome) : state :=
+  State st0 None (max_seq st0) false [] 0 acked0 err0 [] io false false false released0.
+Definition init (io : list outcome) : state := init_from [] [] [] [] io.
 
 Definition set_store (st : state) (x : store) : state :=
-  State x (s_cur st) (s_seq st) (s_force st) (s_pending st) (s_since st) (s_ok st) (s_err st) (s_log st) (s_io st) (s_halt st) (s_over st) (s_panic st).
+  State x (s_cur st) (s_seq st) (s_force st) (s_pending st) (s_since st) (s_ok st) (s_err st) (s_log st) (s_io st) (s_halt st) (s_over st) (s_panic st) (s_released st).
 Definition set_rot (st : state) (cur : option writer) (seq : N) (force : bool) : state :=
-  State (s_store st) cur seq force (s_pending st) (s_since st) (s_ok st) (s_err st) (s_log st) (s_io st) (s_halt st) (s_over st) (s_panic st).
+  State (s_store st) cur seq force (s_pending st) (s_since st) (s_ok st) (s_err st) (s_log st) (s_io st) (s_halt st) (s_over st) (s_panic st) (s_released st).
 Definition set_halt (st : state) : state :=
-  State (s_store st) (s_cur st) (s_seq st) (s_force st) (s_pending st) (s_since st) (s_ok st) (s_err st) (s_log st) (s_io st) true (s_over st) (s_panic st).
+  State (s_store st) (s_cur st) (s_seq st) (s_force st) (s_pending st) (s_since st) (s_ok st) (s_err st) (s_log st) (s_io st) true (s_over st) (s_panic st) (s_released st).
 Definition set_over (st : state) : state :=
-  State (s_store st) (s_cur st) (s_seq st) (s_force st) (s_pending st) (s_since st) (s_ok st) (s_err st) (s_log st) (s_io st) (s_halt st) true (s_panic st).
+  State (s_store st) (s_cur st) (s_seq st) (s_force st) (s_pending st) (s_since st) (s_ok st) (s_err st) (s_log st) (s_io st) (s_halt st) true (s_panic st) (s_released st).
 
 (* A Rust panic in the actor task: the task is gone (no further step has any effect). *)
 Definition set_panic (st : state) : state :=
-  State (s_store st) (s_cur st) (s_seq st) (s_force st) (s_pending st) (s_since st) (s_ok st) (s_err st) (s_log st) (s_io st) true (s_over st) true.
+  State (s_store st) (s_cur st) (s_seq st) (s_force st) (s_pending st) (s_since st) (s_ok st) (s_err st) (s_log st) (s_io st) true (s_over st) true (s_released st).
 
 (* One I/O call: take the next outcome, or crash if there is none. *)
 Definition do_io (st : state) (c : call) : option (outcome * state) :=
@@ -182,7 +187,7 @@ Definition do_io (st : state) (c : call) : option (outcome * state) :=
   | [] => None
   | o :: r =>
       Some (o, State (s_store st) (s_cur st) (s_seq st) (s_force st) (s_pending st) (s_since st)
-                     (s_ok st) (s_err st) (LIo c o :: s_log st) r (s_halt st) (s_over st) (s_panic st))
+                     (s_ok st) (s_err st) (LIo c o :: s_log st) r (s_halt st) (s_over st) (s_panic st) (s_released st))
   end.
 
 Inductive res := ROk | RErr | RHalt | RPanic.
@@ -259,7 +264,7 @@ Definition rot_append (cfg : config) (st : state) (w size : N) : state * res :=
 Definition ack (st : state) (w : N) (ok : bool) : state :=
   State (s_store st) (s_cur st) (s_seq st) (s_force st) (s_pending st) (s_since st)
         (if ok then w :: s_ok st else s_ok st) (if ok then s_err st else w :: s_err st)
-        (LAck w ok :: s_log st) (s_io st) (s_halt st) (s_over st) (s_panic st).
+        (LAck w ok :: s_log st) (s_io st) (s_halt st) (s_over st) (s_panic st) (s_released st).
 
 (* handle_message_always, arm Write (every write of the model carries an ack channel) *)
 Definition handle_write (cfg : config) (st : state) (w size : N) : state :=
@@ -267,7 +272,7 @@ Definition handle_write (cfg : config) (st : state) (w size : N) : state :=
   let '(st, r) := rot_append cfg st w size in
   match r with
   | ROk => State (s_store st) (s_cur st) (s_seq st) (s_force st) (s_pending st ++ [w]) (s_since st + 1)
-                 (s_ok st) (s_err st) (s_log st) (s_io st) (s_halt st) (s_over st) (s_panic st)
+                 (s_ok st) (s_err st) (s_log st) (s_io st) (s_halt st) (s_over st) (s_panic st) (s_released st)
   | RErr => ack st w false
   | RHalt | RPanic => st
   end.
@@ -275,7 +280,7 @@ Definition handle_write (cfg : config) (st : state) (w size : N) : state :=
 Definition resolve_all (st : state) (ok : bool) : state :=
   let st := fold_left (fun a w => ack a w ok) (s_pending st) st in
   State (s_store st) (s_cur st) (s_seq st) (s_force st) [] 0
-        (s_ok st) (s_err st) (s_log st) (s_io st) (s_halt st) (s_over st) (s_panic st).
+        (s_ok st) (s_err st) (s_log st) (s_io st) (s_halt st) (s_over st) (s_panic st) (s_released st).
 
 (* flush_group_commit: WalRotator::sync is Ok(()) when there is no current writer *)
 Definition flush (st : state) : state :=
@@ -292,12 +297,64 @@ Definition flush (st : state) : state :=
 
 Definition log_down (st : state) : state :=
   State (s_store st) (s_cur st) (s_seq st) (s_force st) (s_pending st) (s_since st) (s_ok st) (s_err st)
-        (LDown :: s_log st) (s_io st) (s_halt st) (s_over st) (s_panic st).
+        (LDown :: s_log st) (s_io st) (s_halt st) (s_over st) (s_panic st) (s_released st).
 
 (* handle_message_always, arm Shutdown *)
 Definition shutdown (st : state) : state :=
   let st := flush st in
   if s_halt st then st else log_down st.
+
+(* WalRotator::truncate_before, as coded: the listing (names) is taken once, in name
+   (= sequence) order; the current writer's file is skipped; a file that cannot be opened (no complete
+   header) is skipped; a file whose readable entries all carry a stamp <= t (in
+   particular: none) is deleted; a failing delete ends the loop (`?`).  The stamp of the
+   entry of write w is w (the harness uses the timestamp as the write id). *)
+Definition file_entries (f : file) : option (list N) :=
+  match f_items f with
+  | IHdr :: r => Some (take_entries r)
+  | _ => None
+  end.
+Definition deletable (t : N) (f : file) : bool :=
+  match file_entries f with
+  | Some es => forallb (fun w => w <=? t) es
+  | None => false
+  end.
+Definition files_at (st : store) (s : N) : list file :=
+  map snd (filter (fun p => N.eqb (fst p) s) st).
+(* open_read + WalReader::open + entries() of the file named by sequence s, now *)
+Definition deletable_at (t : N) (st : store) (s : N) : bool :=
+  match files_at st s with
+  | [] => false                       (* open_read fails: skipped *)
+  | fs => forallb (deletable t) fs    (* (sequence numbers are unique: one file) *)
+  end.
+Definition entries_at (st : store) (s : N) : list N :=
+  flat_map (fun f => read_file (f_items f)) (files_at st s).
+Definition delete_file (st : state) (s : N) : state :=
+  State (st_remove (s_store st) s) (s_cur st) (s_seq st) (s_force st) (s_pending st) (s_since st) (s_ok st) (s_err st)
+        (s_log st) (s_io st) (s_halt st) (s_over st) (s_panic st) (entries_at (s_store st) s ++ s_released st).
+
+Fixpoint truncate_files (st : state) (t : N) (cur : option N) (names : list N) : state :=
+  match names with
+  | [] => st
+  | s :: r =>
+      if match cur with Some c => N.eqb c s | None => false end then truncate_files st t cur r
+      else if deletable_at t (s_store st) s then
+        match do_io st (CDel s) with
+        | None => set_halt st
+        | Some (OOk, st) => truncate_files (delete_file st s) t cur r
+        | Some (OErr ENone, st) => st
+        | Some (OErr _, st) => delete_file st s
+        end
+      else truncate_files st t cur r
+  end.
+
+Definition log_trunc (st : state) (t : N) : state :=
+  State (s_store st) (s_cur st) (s_seq st) (s_force st) (s_pending st) (s_since st) (s_ok st) (s_err st)
+        (LTrunc t :: s_log st) (s_io st) (s_halt st) (s_over st) (s_panic st) (s_released st).
+
+(* handle_message_always, arm TruncateUpTo *)
+Definition truncate (st : state) (t : N) : state :=
+  truncate_files (log_trunc st t) t (option_map w_seq (s_cur st)) (map fst (sort_by_seq (s_store st))).
 
 Definition step (cfg : config) (st : state) (ev : sched_item) : state :=
   if s_halt st then st else
@@ -305,6 +362,7 @@ Definition step (cfg : config) (st : state) (ev : sched_item) : state :=
   | SWrite w size => handle_write cfg st w size
   | SFlush => flush st
   | SShutdown => shutdown st
+  | STruncate t => truncate st t
   end.
 
 Definition run (cfg : config) (sched : list sched_item) (io : list outcome) : state :=
@@ -312,7 +370,7 @@ Definition run (cfg : config) (sched : list sched_item) (io : list outcome) : st
 
 (* Crash, reboot, a new actor on what survived.  Pending acks die with the process. *)
 Definition restart (keep : N -> nat) (st : state) (io : list outcome) : state :=
-  init_from (crash_keep keep (s_store st)) (s_ok st) (s_err st) io.
+  init_from (crash_keep keep (s_store st)) (s_ok st) (s_err st) (s_released st) io.
 
 (* A history of incarnations: each runs its schedule against its outcome stream (and dies
    where the stream ends, at the latest); [keep] says what the crash before it spared. *)
